@@ -32,6 +32,7 @@ def litOps (op : String) (a : List String) : Option String :=
   | "nat.less", [x, y] => some (toString (less (argHex x) (argHex y)))
   | "nat.sort", xs => some (" ".intercalate ((sort (xs.map argHex)).map outHex))
   | "nat.law", [_, _, _] => some "ok"
+  | "nat.sorted", _ => some "ok"
   | "nat.num", [_, _, _, _] => some "ok"
   | "int.ident", [w, x] => some (rBytes (identInt w.toNat! (argInt x)))
   | "int.parse", [w, s] => some (rInt (newIntFromString w.toNat! (argHex s)))
